@@ -125,8 +125,15 @@ def gen_scenario(rng, cfg):
                 words.append(s["pre"] + s["text"] + s["post"])
         line = {"probe": False, "subs": subs, "form": form, "same_word": same_word or form != "argv",
                 "dones": 1 + sum(1 for x in subs if x["kind"] == "func")}
+        lead, trail = [], []
+        if form == "argv" and rng.chance(40):
+            lead = [rng.choice(["'s q'", "plain", '"d q"', "'x'"])]
+        if form == "argv" and rng.chance(25):
+            trail = [rng.choice(["'t q'", "end"])]
+        line["lead"] = lead
+        line["trail"] = trail
         if form == "argv":
-            outer = [pup(tag + "o", {"t": "ignorer", "code": 0}, args=words)]
+            outer = [pup(tag + "o", {"t": "ignorer", "code": 0}, args=lead + words + trail)]
         elif form == "quoted":
             outer = [pup(tag + "o", {"t": "ignorer", "code": 0}, args=['"lead ' + words[0] + ' tail"'])]
         elif form == "assign":
@@ -179,7 +186,20 @@ def printable_stream(seed, n):
     """deterministic printable text of n bytes (letters and digits only)"""
     from psim import stream_bytes
     raw = stream_bytes(seed, 0, n)
-    return bytes(PLAIN.encode()[b % 62] for b in raw)
+    out = bytearray()
+    i = 0
+    # letters and digits with multi-byte characters sprinkled in at irregular distances, so that
+    # some of them straddle whatever chunk size the reader uses
+    while len(out) < n:
+        b = raw[i % len(raw)] if raw else 0
+        i += 1
+        if b % 11 == 0 and len(out) + 3 <= n:
+            out += "€".encode()
+        elif b % 13 == 0 and len(out) + 2 <= n:
+            out += "é".encode()
+        else:
+            out.append(PLAIN.encode()[b % 62])
+    return bytes(out)
 
 
 class C11Runner(LineRunner):
@@ -245,7 +265,7 @@ class C11Runner(LineRunner):
             if r.get("from_subst"):
                 w = self.expected_word(line)
                 st.hs_unmodelled = w is None
-                r["word"] = (w[0].decode("latin1") if w else "")
+                r["word"] = (w[0].decode("utf-8") if w else "")
                 if w is not None and w[0] == b"":
                     r["word"] = '""'
         LineRunner.wire_stage(self, st)
@@ -267,7 +287,7 @@ class C11Runner(LineRunner):
         sim = self.sim
         line = self.sc["lines"][st.line_no]
         G = st.group
-        argv = [a.encode("latin1", "replace") for a in st.pup.hello["argv"]]
+        argv = [a.encode("utf-8", "replace") for a in st.pup.hello["argv"]]
         if G.capture:
             sim.probe("inner_command_started")
             f2 = st.pup.fds.get(2)
@@ -280,6 +300,9 @@ class C11Runner(LineRunner):
             if want_v is not None and (len(argv) < 3 or argv[2] != want_v):
                 raise Violation("shell_state_changed", "$V expands to %r after a substitution, it was set to %r" % (
                     argv[2:3], want_v))
+            extra = sorted(fd for fd in st.pup.fds if fd > 2)
+            if extra:
+                raise Violation("shell_state_changed", "the command after a substitution starts with extra descriptors %s" % extra)
             for fd in (0, 1, 2):
                 if st.pup.fds.get(fd, {}).get("link") != self.shell_fds0.get(fd):
                     raise Violation("shell_state_changed", "descriptor %d of the next command is %s, not the shell's" % (
@@ -301,15 +324,21 @@ class C11Runner(LineRunner):
             return
         form = line["form"]
         if form == "argv":
-            want = [w for w in words]
+            unq = {"'s q'": b"s q", "plain": b"plain", '"d q"': b"d q", "'x'": b"x", "a\\ b": b"a b",
+                   "'t q'": b"t q", "end": b"end"}
+            want = [unq[a] for a in line.get("lead", [])] + [w for w in words] + [unq[a] for a in line.get("trail", [])]
             got = argv[2:]
+            if line.get("lead"):
+                sim.probe("quoted_or_escaped_word_before_the_substitution")
             if got != want:
                 # stderr text in the word?
-                for k, sub in enumerate(line["subs"]):
-                    marker = ("E%ss%d" % ("q%d" % 0, k)).encode()
-                for a in got:
-                    if b"Eq" in a and any(b"Eq" not in w for w in want):
-                        raise Violation("stderr_in_word", "stderr text of the inner command appears in the word %r" % self.clip([a]))
+                for sub in line["subs"]:
+                    for stg in sub["inner"]:
+                        for w in (stg.get("role") or {}).get("writes", []):
+                            if w["fd"] == 2 and "hex" in w:
+                                marker = bytes.fromhex(w["hex"]).strip()
+                                if marker and any(marker in a for a in got) and not any(marker in x for x in want):
+                                    raise Violation("stderr_in_word", "stderr text of the inner command appears in %r" % self.clip(got))
                 raise Violation("argv_mismatch", "outer command received %s, expected %s" % (self.clip(got), self.clip(want)))
             sim.probe("argv_checked")
             if any(len(w) > 60000 for w in want):
